@@ -247,6 +247,9 @@ def sedol2isin(sedol, nation=None) -> str:
         raise ValueError("'%s' is not a valid SEDOL" % sedol)
 
     nation = nation or "GB"
+    if nation not in NUMBERING_AGENCIES.keys():
+        raise ValueError("'%s' is not a valid country code" % nation)
+
     base = nation + sedol.zfill(9)
     return base + isin_checksum(base)
 
